@@ -123,7 +123,7 @@ class RefMixin:
                 if x not in delivered and x not in failed:
                     held[x] = 1
         elif name in ("timed_window_unique", "partition_unique"):
-            keyf = parity if arg[0] == "parity" else (lambda v: v)
+            keyf = parity if arg[0] == "parity" else (lambda v: v)      # (failkey: identity for the elements that get in)
             out = {}
             if arg[1] == "first":
                 for x in since_delivery:
